@@ -825,8 +825,10 @@ func checkC16(rep *rt.Reporter, ci int, w *world, detail func() map[string]any) 
 			dying := false
 			w.rig.mu.Lock()
 			for _, q := range w.queues {
-				sd, ex := atomic.LoadInt64(&q.shutdown), atomic.LoadInt64(&q.exited)
-				if q.p == b.Peer && ((sd != 0 && sd < b.Ret) || (ex != 0 && ex > b.Call)) {
+				// (q.shutdown is the moment the queue's done channel was closed, reported by a hook, whether
+				// the peer manager or the queue itself shut it down)
+				sd := atomic.LoadInt64(&q.shutdown)
+				if q.p == b.Peer && sd != 0 && sd < b.Ret {
 					dying = true
 				}
 			}
@@ -1224,6 +1226,9 @@ func TestQueueScripted(t *testing.T) {
 		nPending := 3 + r.Intn(5)
 		for k := 0; k < nPending && inc == ""; k++ {
 			ri := r.Intn(nreq)
+			if kind != "held-send-fails-all-retries" {
+				ri = 1 + r.Intn(nreq-1) // the held message's request is not shared: no scrub-rule exemption can hide it
+			}
 			if kind == "held-send-fails-all-retries" && k == 0 {
 				ri = 0 // a pending message that only carries the failing request, with others queued after it
 			} else if kind == "held-send-fails-all-retries" && k > 0 && k < 3 {
